@@ -142,6 +142,26 @@ func (r *relayItems) Get(id uint32, stopTimeout bool) (_ relayItem, stopped bool
 	return item, item.timeout.Stop(), true /* found */
 }
 
+// sendIfLive queues f on ch unless the item has been entombed or deleted since
+// it was looked up. The check and the non-blocking send happen with the read
+// lock held, so that a timeout or failure, which entombs the item before it
+// writes the call's error frame, cannot slip in between: a frame is never
+// queued behind the terminal frame of its call.
+func (r *relayItems) sendIfLive(id uint32, ch chan<- *Frame, f *Frame) (queued, live bool) {
+	r.RLock()
+	defer r.RUnlock()
+
+	if item, ok := r.items[id]; !ok || item.tomb {
+		return false, false
+	}
+	select {
+	case ch <- f:
+		return true, true
+	default:
+		return false, true
+	}
+}
+
 // Add adds a relay item.
 func (r *relayItems) Add(id uint32, item relayItem) {
 	r.Lock()
@@ -323,9 +343,13 @@ func (r *Relayer) Receive(f *Frame, fType frameType) (sent bool, failureReason s
 			item.call.Failed(failMsg)
 		}
 	}
-	select {
-	case r.conn.sendCh <- f:
-	default:
+	queued, live := items.sendIfLive(id, r.conn.sendCh, f)
+	if !live {
+		// The item timed out or failed while this frame was being processed; its
+		// terminal error frame is on its way, nothing may follow it.
+		return true, ""
+	}
+	if !queued {
 		// Buffer is full, so drop this frame and cancel the call.
 
 		// Since this is typically due to the send buffer being full, get send buffer
